@@ -189,3 +189,75 @@ func EnumIteratorShapes() []*Program {
 	}
 	return out
 }
+
+// EnumUninitLocalShapes: `local x` without an initialiser is nil EVERY time the declaration is executed — as the
+// first statement of a loop body / after a label, where the loop is the first statement of a function (its first
+// instruction is a jump target), of the main chunk, or follows other statements; 1–3 names; fixed-arity, vararg
+// and method functions.
+func EnumUninitLocalShapes() []*Program {
+	decls := []string{"local x", "local x, y", "local x; local y", "local x, y, z", "local w = n; local x"}
+	loops := []string{
+		"repeat\n %s\n emit(x)\n x = 'set'\n n = n + 1\n until n >= 3",
+		"while n < 3 do\n %s\n emit(x)\n x = 'set'\n n = n + 1\n end",
+		"while true do\n %s\n emit(x)\n x = 'set'\n n = n + 1\n if n >= 3 then break end\n end",
+		"::top::\n do\n %s\n emit(x)\n x = 'set'\n n = n + 1\n end\n if n < 3 then goto top end",
+		"::top::\n %s\n emit(x)\n x = 'set'\n n = n + 1\n if n < 3 then goto cont end\n do return end\n ::cont::\n goto top",
+		"for i = 1, 3 do\n %s\n emit(x)\n x = 'set'\n n = n + 1\n end",
+		"for _, v in ipairs({1, 2, 3}) do\n %s\n emit(x)\n x = v\n n = n + 1\n end",
+		"repeat\n repeat\n %s\n emit(x)\n x = 'set'\n n = n + 1\n until n %% 2 == 0\n until n >= 4",
+	}
+	wrappers := []string{
+		"n = 0\nlocal function f()\n%s\nend\nf()",
+		"n = 0\nlocal function f(a, b)\n%s\nend\nf(1, 2)",
+		"n = 0\nlocal function f(...)\n%s\nend\nf(1, 2)",
+		"n = 0\nlocal o = {}\nfunction o:m()\n%s\nend\no:m()",
+		"n = 0\nlocal function f()\nlocal before = 1\n%s\nend\nf()",
+		"n = 0\n%s",
+		"n = 0\nlocal function f()\nreturn (function()\n%s\nend)()\nend\nf()",
+	}
+	var out []*Program
+	for _, d := range decls {
+		for li, l := range loops {
+			body := fmt.Sprintf(l, d)
+			for wi, w := range wrappers {
+				src := fmt.Sprintf(w, body) + "\nemit('n', n)\nreturn n"
+				out = append(out, shapeProgram(src, "shape:uninit-local", fmt.Sprintf("loop:%d", li), fmt.Sprintf("wrap:%d", wi)))
+			}
+		}
+	}
+	return out
+}
+
+// EnumNestedCloseShapes: a block with captured locals whose LAST statement is a nested block statement (if / if-else /
+// while / numeric for / do) that itself captures locals, executed several times with the nested block taken, skipped
+// or left early: every pass must get fresh variables in BOTH blocks and leave earlier closures untouched.
+func EnumNestedCloseShapes() []*Program {
+	outers := []string{
+		"for i = 1, 4 do\n local j = i * 10\n fns[#fns + 1] = function() j = j + 1 return j end\n %s\nend",
+		"local i = 0\nwhile i < 4 do\n i = i + 1\n local j = i * 10\n fns[#fns + 1] = function() j = j + 1 return j end\n %s\nend",
+		"local i = 0\nrepeat\n i = i + 1\n local j = i * 10\n fns[#fns + 1] = function() j = j + 1 return j end\n %s\nuntil i >= 4",
+		"for _, i in ipairs({1, 2, 3, 4}) do\n local j = i * 10\n fns[#fns + 1] = function() j = j + 1 return j end\n %s\nend",
+		"for i = 1, 4 do\n do\n local j = i * 10\n fns[#fns + 1] = function() j = j + 1 return j end\n %s\n end\nend",
+		"for i = 1, 4 do\n if i > 0 then\n local j = i * 10\n fns[#fns + 1] = function() j = j + 1 return j end\n %s\n end\nend",
+		"local i = 0\n::top::\ni = i + 1\ndo\n local j = i * 10\n fns[#fns + 1] = function() j = j + 1 return j end\n %s\nend\nif i < 4 then goto top end",
+	}
+	inners := []string{
+		"if i % 2 == 0 then\n local k = i\n fns[#fns + 1] = function() k = k + 100 return k end\n end",
+		"if i % 2 == 0 then\n emit('even', i)\n else\n local k = i\n fns[#fns + 1] = function() k = k + 100 return k end\n end",
+		"if i % 2 == 0 then\n local k = i\n fns[#fns + 1] = function() k = k + 100 return k end\n else\n local m = -i\n fns[#fns + 1] = function() m = m - 100 return m end\n end",
+		"local c = 0\n while c < i % 3 do\n c = c + 1\n local k = c\n fns[#fns + 1] = function() k = k + 100 return k end\n end",
+		"for c = 1, i % 3 do\n local k = c\n fns[#fns + 1] = function() k = k + 100 return k end\n if c == 2 then break end\n end",
+		"do\n local k = i\n fns[#fns + 1] = function() k = k + 100 return k end\n end",
+		"if i % 2 == 0 then\n if i % 4 == 0 then\n local k = i\n fns[#fns + 1] = function() k = k + 100 return k end\n end\n end",
+		"repeat\n local k = i\n fns[#fns + 1] = function() k = k + 100 return k end\n until k > 0",
+	}
+	check := "for r = 1, 2 do\n for q = 1, #fns do emit(r, q, fns[q]()) end\nend\nreturn #fns"
+	var out []*Program
+	for oi, o := range outers {
+		for ii, in := range inners {
+			src := "fns = {}\n" + fmt.Sprintf(o, in) + "\n" + check
+			out = append(out, shapeProgram(src, "shape:nested-close", fmt.Sprintf("outer:%d", oi), fmt.Sprintf("inner:%d", ii)))
+		}
+	}
+	return out
+}
